@@ -111,6 +111,22 @@ def sliceFrom {α} (l : List α) (lo : Int) : Option (List α) :=
 def sliceTo {α} (l : List α) (hi : Int) : Option (List α) :=
   if hi < 0 ∨ (l.length : Int) < hi then none else some (l.take hi.toNat)
 def len {α} (l : List α) : Int := (l.length : Int)
+/-- `x[lo:hi]` (bounds are checked against `len`, as for `sliceTo`) -/
+def slice {α} (l : List α) (lo hi : Int) : Option (List α) :=
+  if lo < 0 ∨ hi < lo ∨ (l.length : Int) < hi then none else some ((l.take hi.toNat).drop lo.toNat)
+/-- `make([]T, n)` with a computed length: a negative length panics -/
+def mkSlice {α} (n : Int) (z : α) : Option (List α) :=
+  if n < 0 then none else some (List.replicate n.toNat z)
+/-- `copy(dst, src)` between two different slices: the first `min(len dst, len src)` elements of `dst`
+    are overwritten -/
+def copySlice {α} (dst src : List α) : List α := src.take dst.length ++ dst.drop src.length
+/-- `copy(x[dlo:], x[slo:shi])` inside one slice (a memmove: the source is read before it is overwritten);
+    `n = min(len(x) - dlo, shi - slo)` elements move -/
+def copyWithin {α} (l : List α) (dlo slo shi : Int) : Option (List α) :=
+  if dlo < 0 ∨ (l.length : Int) < dlo ∨ slo < 0 ∨ shi < slo ∨ (l.length : Int) < shi then none
+  else
+    let n := min (l.length - dlo.toNat) (shi.toNat - slo.toNat)
+    some (l.take dlo.toNat ++ (l.drop slo.toNat).take n ++ l.drop (dlo.toNat + n))
 
 /-- `binary.LittleEndian.PutUint64` as a list of 8 bytes -/
 def le64 (v : BitVec 64) : List (BitVec 8) :=
